@@ -303,7 +303,7 @@ func TestVerifC10(t *testing.T) {
 	st := runExplore(t, rep, -1, func(c *choice.Ctx) { c10Scenario(c, rep, alpha, maxLen, sub) })
 	rep.Count("executions", st.Executions)
 	if sh, _ := report.Shard(); sh == 0 && report.ReplayFile() == nil {
-		bubble(t, func() { hmu.Lock(); defer hmu.Unlock(); c10SetFiles(rep) })
+		bubble(t, func() { hmu.Lock(); defer hmu.Unlock(); c10SetFiles(rep); vLongNames(rep, "C10") })
 	}
 	rep.Sample(map[string]any{"rules": "[{dom=A rev=true rej=0 fwd=u1} {dom= rev=false rej=3 fwd=u2}]", "query": "www.Shared.TEST TXT/CH", "reference": "rule 0 does not apply (name in A, reversed) -> rule 1 rejects with NXDOMAIN, no upstream contacted"})
 }
